@@ -12,7 +12,7 @@ Import ListNotations.
 (** reduce the behaviour switches of [repaired] *)
 Ltac beh := cbn [repaired b_df_checks b_df_cols_check b_mtag_pos_first b_array_checks_first b_meta_lookup_first
                  b_link_lookup_first b_ext_check_first b_values_check_first b_prop_type_check b_prop_values_uniform
-                 b_esrc_by_name b_uuid_name_links b_replace_all_atomic b_feature_null_guard b_delsource_by_id andb negb].
+                 b_esrc_by_name b_uuid_name_links b_replace_all_atomic b_feature_null_guard b_delsource_by_id b_valid_reachable andb negb].
 
 Section Shape.
 Variable ids : nat -> string.
@@ -180,10 +180,20 @@ Proof. unfold check_name. destruct (is_empty_str name) eqn:E; [discriminate|]. i
 (** ** links of new / changed entities *)
 Lemma links_alive_none s : links_alive s no_links.
 Proof.
-  split.
+  split; [|split].
   - intros sl. destruct sl; simpl; split; try constructor; intros t [].
   - intros sl t. destruct sl; simpl; discriminate.
+  - intros t [].
 Qed.
+
+Lemma l_dims_set_o o v l : l_dims (set_o o v l) = l_dims l.
+Proof. destruct o; reflexivity. Qed.
+Lemma l_dims_set_l sl v l : l_dims (set_l sl v l) = l_dims l.
+Proof. destruct sl; reflexivity. Qed.
+Lemma get_l_set_dims sl v l : get_l sl (set_dims v l) = get_l sl l.
+Proof. destruct sl; reflexivity. Qed.
+Lemma get_o_set_dims o v l : get_o o (set_dims v l) = get_o o l.
+Proof. destruct o; reflexivity. Qed.
 
 Lemma get_l_set_o sl o v l : get_l sl (set_o o v l) = get_l sl l.
 Proof. destruct sl, o; reflexivity. Qed.
@@ -206,21 +216,32 @@ Proof. decide equality. Qed.
 Lemma links_alive_set_o s l o v :
   links_alive s l -> (forall t, v = Some t -> alive s t = true) -> links_alive s (set_o o v l).
 Proof.
-  intros [A1 A2] Hv. split.
+  intros [A1 [A2 A3]] Hv. split; [|split].
   - intros sl. rewrite get_l_set_o. apply A1.
   - intros sl t. destruct (oslot_dec o sl) as [E|E].
     + subst. rewrite get_o_set_o_same. auto.
     + rewrite get_o_set_o_other; auto. apply A2.
+  - rewrite l_dims_set_o. apply A3.
 Qed.
 
 Lemma links_alive_set_l s l sl v :
   links_alive s l -> NoDup v -> (forall t, In t v -> alive s t = true) -> links_alive s (set_l sl v l).
 Proof.
-  intros [A1 A2] Nd Hv. split.
+  intros [A1 [A2 A3]] Nd Hv. split; [|split].
   - intros sl'. destruct (lslot_dec sl sl') as [E|E].
     + subst. rewrite get_l_set_l_same. auto.
     + rewrite get_l_set_l_other; auto.
   - intros o t. rewrite get_o_set_l. apply A2.
+  - rewrite l_dims_set_l. apply A3.
+Qed.
+
+Lemma links_alive_set_dims s l v :
+  links_alive s l -> (forall t, In (DimFrame (Some t)) v -> alive s t = true) -> links_alive s (set_dims v l).
+Proof.
+  intros [A1 [A2 A3]] Hv. split; [|split].
+  - intros sl. rewrite get_l_set_dims. apply A1.
+  - intros o t. rewrite get_o_set_dims. apply A2.
+  - exact Hv.
 Qed.
 
 (** ** good updates *)
@@ -242,6 +263,14 @@ Lemma good_set_members s o sl v :
   Inv s -> NoDup v -> (forall t, In t v -> alive s t = true) -> good_upd s o (with_links (set_l sl v)).
 Proof.
   intros H Nd Hv. apply good_with_links; auto. intros e He _. apply links_alive_set_l; auto. apply (inv_links _ _ _ H _ He).
+Qed.
+
+Lemma good_set_dims s o v :
+  Inv s -> (forall e, In e (ents s) -> e_oid e = o -> forall t, In (DimFrame (Some t)) (v e) -> alive s t = true) ->
+  good_upd s o (fun e => with_links (set_dims (v e)) e).
+Proof.
+  intros H Hv. split; [intros e; reflexivity|]. intros e He Ho. simpl. apply links_alive_set_dims; [apply (inv_links _ _ _ H _ He)|].
+  apply Hv; auto.
 Qed.
 
 Lemma good_with_type s o t : Inv s -> good_upd s o (with_type t).
@@ -273,9 +302,10 @@ Lemma create_backend_shape s p k name type lk py :
   (k <> KFeature -> name <> EmptyString /\ (forall x, In x (children s p k) -> link_name x <> name) /\
                     (forall x, In x (children s p k) -> name <> eid x)) ->
   links_alive (add_ent s (mkEnt (new_hdr s k p name type) lk py)) lk ->
+  (forall q, p = Some q -> alive s q = true) ->
   shape s (create_backend s p k name type lk py).
 Proof.
-  intros H F Hn Hl. unfold create_backend. destruct (h5_bad_link_name name); [apply shape_fail_bump|].
+  intros H F Hn Hl Hpar. unfold create_backend. destruct (h5_bad_link_name name); [apply shape_fail_bump|].
   apply TAdd.
   assert (Hfeat : forall x, In x (children s p KFeature) -> ids (next s) <> eid x).
   { intros x Hx E. unfold DbOps.eid in E. apply ids_inj in E. apply children_ents in Hx.
@@ -290,6 +320,7 @@ Proof.
   - intros x Hx. apply fresh_link; auto.
   - exact Hl.
   - apply F.
+  - exact Hpar.
 Qed.
 
 Lemma links_alive_new_o s e sl a :
@@ -310,9 +341,9 @@ Proof.
 Qed.
 
 Lemma do_create_shape s pk p k name type x :
-  Inv s -> fresh s -> shape s (do_create ids repaired s pk p k name type x).
+  Inv s -> fresh s -> (forall q, p = Some q -> alive s q = true) -> shape s (do_create ids repaired s pk p k name type x).
 Proof.
-  intros H F. unfold do_create.
+  intros H F Hpar. unfold do_create.
   destruct k, x; try apply shape_fail; beh.
   - (* block *)
     destruct (check_name name) eqn:CN; [apply shape_fail|]. destruct (is_empty_str type); [apply shape_fail|].
@@ -610,36 +641,64 @@ Proof.
     destruct (block_find_key ids _ _) eqn:F; [|apply shape_fail].
     apply shape_set_olink_some; auto. apply block_find_key_in in F. eapply children_ents; eauto.
   - destruct (e_kind e); try apply shape_fail; (destruct u; [destruct (first_bad_unit _ _ _); [apply shape_fail|]|]; apply TUpd, good_with_pay; auto).
-  - destruct (e_kind e); try apply shape_fail. destruct (dtype_eqb _ _); [apply shape_fail|].
-    destruct (negb _); [apply shape_fail|]. apply TUpd, good_with_pay; auto.
+  - destruct (e_kind e); try apply shape_fail.
+    + destruct (dtype_eqb _ _); [apply shape_fail|].
+      destruct (negb _); [apply shape_fail|]. apply TUpd, good_with_pay; auto.
+    + destruct x as [|n [|]]; try apply shape_fail. apply TUpd, good_with_pay; auto.
   - destruct (e_kind e); try apply shape_fail. destruct vals as [|d0 vals]; [apply TUpd, good_with_pay; auto|].
     destruct (negb (dtype_eqb d0 _)); [apply shape_fail|].
     destruct (all_same d0 (d0 :: vals)); [apply TUpd, good_with_pay; auto|apply shape_fail].
   - destruct (e_kind e); try apply shape_fail. apply TUpd, good_with_pay; auto.
   - destruct (e_kind e); try apply shape_fail. apply TUpd, good_with_pay; auto.
+  - (* append a dimension *)
+    apply find_ent_some in Fe. destruct Fe as [He Eo].
+    destruct (e_kind e); try apply shape_fail. destruct (block_of_ent s e); [|apply shape_fail].
+    assert (Hold : forall t, In (DimFrame (Some t)) (l_dims (e_links e)) -> alive s t = true)
+      by (destruct (inv_links _ _ _ H _ He) as [_ [_ A3]]; exact A3).
+    assert (G : forall v, (forall t, In (DimFrame (Some t)) v -> alive s t = true) ->
+                          shape s (ret (upd s o (with_links (set_dims v))) VUnit)).
+    { intros v Hv. apply TUpd. apply good_with_links; auto. intros e' He' Eo'. apply links_alive_set_dims; auto.
+      apply (inv_links _ _ _ H _ He'). }
+    assert (App : forall d', (forall t, d' = DimFrame (Some t) -> alive s t = true) ->
+                             forall t, In (DimFrame (Some t)) (l_dims (e_links e) ++ [d']) -> alive s t = true).
+    { intros d' Hd t Ht. apply in_app_or in Ht. destruct Ht as [Ht|[Ht|[]]]; auto. }
+    destruct d.
+    + apply G, App. discriminate.
+    + apply G, App. discriminate.
+    + apply G, App. discriminate.
+    + destruct (1 <? _); [apply shape_fail|]. destruct (negb (dtype_numeric _)); [apply shape_fail|].
+      destruct (negb _); [apply shape_fail|]. apply G. intros t [Ht|[]]. discriminate.
+    + destruct f; [apply shape_fail|]. destruct (block_find_key ids _ _) eqn:BF; [|apply shape_fail].
+      apply G, App. intros t Et. inversion Et; subst. apply in_alive. apply block_find_key_in in BF. eapply children_ents; eauto.
+  - (* deleteDimensions *)
+    destruct (e_kind e); try apply shape_fail. apply TUpd. apply good_with_links; auto. intros e' He' _.
+    apply links_alive_set_dims; [apply (inv_links _ _ _ H _ He')|]. intros t [].
+  - (* a write outside the model *)
+    destruct (existsb _ ks); [apply shape_ret_same|apply shape_fail].
 Qed.
 
 (** ** every step *)
 Theorem step_shape s o : Inv s -> fresh s -> shape s (step ids sanitize unit_ok repaired s o).
 Proof.
   intros H F. unfold step.
-  assert (WC : forall p k f, (forall pk, shape s (f pk)) -> shape s (with_container s p k f)).
-  { intros p k f Hf. unfold with_container. destruct (parent_kind s p); [|apply shape_fail].
-    destruct (container_ok o0 k); [apply Hf|apply shape_fail]. }
+  assert (WC : forall p k f, ((forall q, p = Some q -> alive s q = true) -> forall pk, shape s (f pk)) -> shape s (with_container s p k f)).
+  { intros p k f Hf. unfold with_container. destruct (parent_kind s p) eqn:PK; [|apply shape_fail].
+    destruct (container_ok o0 k); [apply Hf|apply shape_fail].
+    intros q Eq. subst p. unfold parent_kind in PK. unfold alive. destruct (find_ent s q); [reflexivity|discriminate]. }
   destruct o; try (apply do_link_op_shape; auto); try (apply do_setter_shape; auto).
-  - apply WC. intros pk. apply do_create_shape; auto.
-  - apply WC. intros pk. destruct (lookup_ok s pk p k key) as [x E]. rewrite E. apply do_delete_found_shape.
-  - apply WC. intros pk. destruct (hent s a); [|apply shape_ret_same].
+  - apply WC. intros Hpar pk. apply do_create_shape; auto.
+  - apply WC. intros _ pk. destruct (lookup_ok s pk p k key) as [x E]. rewrite E. apply do_delete_found_shape.
+  - apply WC. intros _ pk. destruct (hent s a); [|apply shape_ret_same].
     destruct (lookup_h_ok s pk p k e true) as [x E]. rewrite E. apply do_delete_found_shape.
-  - apply WC. intros pk. destruct (lookup_ok s pk p k key) as [x E]. rewrite E. apply res_value_shape.
-  - apply WC. intros pk. destruct (hent s a); [|apply shape_ret_same].
+  - apply WC. intros _ pk. destruct (lookup_ok s pk p k key) as [x E]. rewrite E. apply res_value_shape.
+  - apply WC. intros _ pk. destruct (hent s a); [|apply shape_ret_same].
     destruct (lookup_h_ok s pk p k e false) as [x E]. rewrite E. apply res_value_shape.
-  - apply WC. intros pk. destruct (lookup_ok s pk p k key) as [x E].
+  - apply WC. intros _ pk. destruct (lookup_ok s pk p k key) as [x E].
     destruct pk as [[]|]; destruct k; try (rewrite E; apply res_value_shape);
       (destruct (is_empty_str key); [apply shape_fail|rewrite E; apply res_value_shape]).
-  - apply WC. intros pk. apply get_idx_shape.
-  - apply WC. intros pk. apply shape_ret_same.
-  - apply WC. intros pk. apply shape_ret_same.
+  - apply WC. intros _ pk. apply get_idx_shape.
+  - apply WC. intros _ pk. apply shape_ret_same.
+  - apply WC. intros _ pk. apply shape_ret_same.
   - apply shape_ret_same.
 Qed.
 
